@@ -38,11 +38,21 @@ def main(argv):
         print(__doc__)
         return 2
     pid = argv[1].upper()
-    prop = importlib.import_module("props." + pid.lower())
+    try:
+        prop = importlib.import_module("props." + pid.lower())
+    except Exception:  # an unknown id, or the harness / the tree under test does not import: infrastructure
+        import traceback
+        traceback.print_exc()
+        print("INFRASTRUCTURE: cannot load the check for %s (exit 2, not a violation)" % pid)
+        return 2
     if argv[2] == "--replay":
-        path = argv[3]
-        with open(path if os.path.isabs(path) else os.path.join(HERE, "..", path)) as f:
-            rep = json.load(f)
+        try:
+            path = argv[3]
+            with open(path if os.path.isabs(path) else os.path.join(HERE, "..", path)) as f:
+                rep = json.load(f)
+        except (IndexError, OSError, ValueError) as ex:
+            print("INFRASTRUCTURE: cannot read the replay file: %r" % (ex,))
+            return 2
         if "case" not in rep:
             print(json.dumps(rep, indent=1))
             return 0
@@ -53,7 +63,11 @@ def main(argv):
         print(__doc__)
         return 2
     os.environ.setdefault("VERIF_TIER", tier)
-    seed = int(os.environ.get("VERIF_SEED", "1") or "1")
+    try:
+        seed = int(os.environ.get("VERIF_SEED", "1") or "1")
+    except ValueError:
+        print("INFRASTRUCTURE: VERIF_SEED must be an integer")
+        return 2
     _arm_watchdog(pid, tier)
     import pipeline
     try:
